@@ -2,11 +2,8 @@ package rules
 
 import (
 	"go/ast"
-	"go/constant"
 	"go/token"
 	"go/types"
-
-	"golang.org/x/tools/go/cfg"
 
 	"lachk/core"
 )
@@ -19,10 +16,8 @@ import (
 //	                 (`seen := mark != 0; if seen {…}` is read as the facts of `mark != 0`)
 //	c01Producer      an expression that is the result of a static call of a module function: the callee
 //	                 as a view (parameters and receiver translate to the caller's arguments)
-//	c01DeepQuery     path question that starts at a call made in a function or in a helper one call
-//	                 down and follows control through the helper's returns back into the caller; the
-//	                 caller does not take edges that contradict what the helper returned on that exit
-//	                 (return-value scenarios: true/false/nil/non-nil/alias of a tracked result)
+//	(round 4: the one-level "deep query" with return-value scenarios was replaced by inlined views plus
+//	 c01EnvQuery, see c01_env.go)
 
 // c01IterationOf recognises the loop as an iteration over a collection or over 0..n-1.
 func c01IterationOf(f *core.FuncInfo, loop ast.Stmt) (*core.Iteration, bool) {
@@ -197,29 +192,8 @@ func c01HelperViews(f *core.FuncInfo) []c01Effect {
 	return out
 }
 
-// c01IsReplayCall: the call re-processes the stored roots (the replay routine or its inner step).
-func c01IsReplayCall(cs *core.CallSite) bool {
-	return cs != nil && (cs.Name == "abft.Orderer.bootstrapElection" || cs.Name == "abft.Orderer.processKnownRoots")
-}
-
-// c01ResultCount: number of results of g.
-func c01ResultCount(g *core.FuncInfo) int {
-	if g.Type.Results == nil {
-		return 0
-	}
-	n := 0
-	for _, fl := range g.Type.Results.List {
-		if len(fl.Names) == 0 {
-			n++
-		} else {
-			n += len(fl.Names)
-		}
-	}
-	return n
-}
-
 // ---------------------------------------------------------------------------
-// return-value scenarios
+// abstract values (used by c01EnvQuery, c01_env.go)
 
 type c01Abs int
 
@@ -230,244 +204,3 @@ const (
 	c01AbsNil
 	c01AbsNonNil
 )
-
-// c01AbsResult: what is statically known about result expression x of the return statement at ret:
-// a constant, or a variable that every path to the return has tested (after its last assignment).
-func c01AbsResult(g *core.FuncInfo, ret core.Point, x ast.Expr) c01Abs {
-	info := g.Info()
-	if core.IsNil(info, x) {
-		return c01AbsNil
-	}
-	if cv, ok := core.ConstVal(info, x); ok && cv.Kind() == constant.Bool {
-		if constant.BoolVal(cv) {
-			return c01AbsTrue
-		}
-		return c01AbsFalse
-	}
-	v := varOf(g, x)
-	if v == nil {
-		return c01AbsUnknown
-	}
-	guarded := func(match func(core.Fact) bool) bool {
-		if ok, _ := g.GuardedBy(ret, match); !ok {
-			return false
-		}
-		ge := g.GuardEdges(match)
-		for _, a := range assignsToVar(g, v) {
-			if a.Pt == ret {
-				continue
-			}
-			if _, found := (core.PathQuery{F: g, From: a.Pt, FromAfter: true, Target: core.PointSet(ret), AvoidEdge: ge}).Find(); found {
-				return false
-			}
-		}
-		return true
-	}
-	if b, isB := v.Type().Underlying().(*types.Basic); isB && b.Info()&types.IsBoolean != 0 {
-		switch {
-		case guarded(c01BoolFact(g, v, true)):
-			return c01AbsTrue
-		case guarded(c01BoolFact(g, v, false)):
-			return c01AbsFalse
-		}
-		return c01AbsUnknown
-	}
-	switch {
-	case guarded(varNilFact(g, v, false)):
-		return c01AbsNonNil
-	case guarded(varNilFact(g, v, true)):
-		return c01AbsNil
-	}
-	return c01AbsUnknown
-}
-
-// c01Exit: one return statement of a helper with what is known about its results on the paths asked for.
-type c01Exit struct {
-	Ret     core.Point
-	Vals    []c01Abs
-	Tracked []bool // result i carries the tracked result of the source call
-}
-
-// c01HoldsAfter: the blocks at whose end variable v still holds the value assigned at `from`: blocks
-// that cannot be reached from another assignment of v without passing `from` again.
-func c01HoldsAfter(f *core.FuncInfo, from core.Point, v *types.Var) func(*cfg.Block) bool {
-	dirty := map[*cfg.Block]bool{}
-	var work []*cfg.Block
-	push := func(b *cfg.Block) {
-		if !dirty[b] {
-			// a block that contains `from` re-establishes the value before its end
-			if b == from.B {
-				return
-			}
-			dirty[b] = true
-			work = append(work, b)
-		}
-	}
-	for _, a := range assignsToVar(f, v) {
-		if a.Pt == from || a.Pt.B == nil {
-			continue
-		}
-		if a.Pt.B == from.B && a.Pt.I < from.I {
-			continue // overwritten by `from` before the block ends
-		}
-		if !dirty[a.Pt.B] {
-			dirty[a.Pt.B] = true
-			work = append(work, a.Pt.B)
-		}
-	}
-	for len(work) > 0 {
-		b := work[0]
-		work = work[1:]
-		for _, s := range b.Succs {
-			push(s)
-		}
-	}
-	return func(b *cfg.Block) bool { return !dirty[b] }
-}
-
-// c01DeepQuery: can control get from the source call to a target effect without passing a `via` effect?
-// The source call is made in e.Caller itself or in the module helper e.G that e.Caller calls at e.At.
-// With Track >= 0 the source's boolean result Track must not be known false on the way: edges on which
-// it is false are not taken, and an overwrite of the variable holding it counts as reaching a target
-// (a later test of that variable speaks about another call).
-//
-// With Neg the tracked result is assumed false instead: edges on which it is true are not taken while the
-// variable still holds that result (an overwrite ends the assumption, it is not a target), and a
-// discarded result merely means that nothing is known.
-type c01DeepQuery struct {
-	Via   func(*core.CallSite) bool // nil: nothing discharges
-	Tgt   func(*core.CallSite) bool
-	Track int
-	Neg   bool
-}
-
-// from returns found (with a witness) or discarded (the tracked result is thrown away).
-func (q c01DeepQuery) from(e c01Effect) (found, discarded bool, wit string) {
-	g := e.G
-	via := func(f *core.FuncInfo) []core.Point {
-		if q.Via == nil {
-			return nil
-		}
-		return f.SitesMust(q.Via, 2)
-	}
-	targets := g.SitesMay(q.Tgt, 1)
-	var avoidEdge func(*cfg.Block, int) bool
-	var sv *types.Var
-	_, inReturn := e.Eff.Pt.Node().(*ast.ReturnStmt)
-	tail := false
-	if inReturn {
-		if r := e.Eff.Pt.Node().(*ast.ReturnStmt); len(r.Results) == 1 && ast.Unparen(r.Results[0]) == ast.Expr(e.Eff.Call) {
-			tail = true
-		}
-	}
-	if q.Track >= 0 && !tail {
-		sv = c01ResultVar(g, e.Eff.Call, q.Track)
-		switch {
-		case sv == nil && !q.Neg:
-			return false, true, ""
-		case sv == nil:
-		case q.Neg:
-			ge, holds := g.GuardEdges(c01BoolFact(g, sv, true)), c01HoldsAfter(g, e.Eff.Pt, sv)
-			avoidEdge = func(b *cfg.Block, s int) bool { return holds(b) && ge(b, s) }
-		default:
-			avoidEdge = g.GuardEdges(c01BoolFact(g, sv, false))
-			for _, a := range assignsToVar(g, sv) {
-				if a.Pt != e.Eff.Pt {
-					targets = append(targets, a.Pt)
-				}
-			}
-		}
-	}
-	viaG := via(g)
-	if !inReturn {
-		if p, ok := (core.PathQuery{F: g, From: e.Eff.Pt, FromAfter: true, Target: core.PointSet(targets...), Avoid: core.PointSet(viaG...), AvoidEdge: avoidEdge}).Find(); ok {
-			return true, false, g.DescribePath(p)
-		}
-	}
-	if g == e.Caller || e.At == nil {
-		return false, false, ""
-	}
-	// the helper's exits that the source can reach
-	nres := c01ResultCount(g)
-	var exits []c01Exit
-	if inReturn {
-		ex := c01Exit{Ret: e.Eff.Pt, Vals: make([]c01Abs, nres), Tracked: make([]bool, nres)}
-		if tail && q.Track >= 0 && q.Track < nres {
-			ex.Tracked[q.Track] = true
-		}
-		exits = append(exits, ex)
-	} else {
-		stop := core.PointSet(append(append([]core.Point(nil), viaG...), targets...)...)
-		for _, rp := range g.ReturnPoints() {
-			if _, ok := (core.PathQuery{F: g, From: e.Eff.Pt, FromAfter: true, Target: core.PointSet(rp), Avoid: stop, AvoidEdge: avoidEdge}).Find(); !ok {
-				continue
-			}
-			ex := c01Exit{Ret: rp, Vals: make([]c01Abs, nres), Tracked: make([]bool, nres)}
-			if r := rp.Node().(*ast.ReturnStmt); len(r.Results) == nres {
-				for i, x := range r.Results {
-					ex.Vals[i] = c01AbsResult(g, rp, x)
-					if sv != nil && canonVar(g, varOf(g, x)) == sv {
-						ex.Tracked[i] = true
-					}
-				}
-			}
-			exits = append(exits, ex)
-		}
-	}
-	// back in the caller
-	F, H := e.Caller, e.At
-	if _, leaves := H.Pt.Node().(*ast.ReturnStmt); leaves {
-		return false, false, "" // the helper's result leaves the caller as well
-	}
-	vars := make([]*types.Var, nres)
-	for i := range vars {
-		vars[i] = c01ResultVar(F, H.Call, i)
-	}
-	tgtF, viaF := F.SitesMay(q.Tgt, 1), via(F)
-	for _, ex := range exits {
-		tg := append([]core.Point(nil), tgtF...)
-		var conds []func(*cfg.Block, int) bool
-		for i, v := range vars {
-			if v == nil {
-				continue
-			}
-			var m func(core.Fact) bool
-			switch {
-			case ex.Tracked[i] && q.Neg:
-				m = c01BoolFact(F, v, true)
-			case ex.Tracked[i] || ex.Vals[i] == c01AbsTrue:
-				m = c01BoolFact(F, v, false)
-			case ex.Vals[i] == c01AbsFalse:
-				m = c01BoolFact(F, v, true)
-			case ex.Vals[i] == c01AbsNil:
-				m = varNilFact(F, v, false)
-			case ex.Vals[i] == c01AbsNonNil:
-				m = varNilFact(F, v, true)
-			}
-			if m == nil {
-				continue
-			}
-			ge, holds := F.GuardEdges(m), c01HoldsAfter(F, H.Pt, v)
-			conds = append(conds, func(b *cfg.Block, s int) bool { return holds(b) && ge(b, s) })
-			if ex.Tracked[i] && !q.Neg {
-				for _, a := range assignsToVar(F, v) {
-					if a.Pt != H.Pt {
-						tg = append(tg, a.Pt)
-					}
-				}
-			}
-		}
-		contradicted := func(b *cfg.Block, s int) bool {
-			for _, cnd := range conds {
-				if cnd(b, s) {
-					return true
-				}
-			}
-			return false
-		}
-		if p, ok := (core.PathQuery{F: F, From: H.Pt, FromAfter: true, Target: core.PointSet(tg...), Avoid: core.PointSet(viaF...), AvoidEdge: contradicted}).Find(); ok {
-			return true, false, short(g.Name) + " returns at " + g.DescribePath([]core.Point{ex.Ret}) + ", then " + F.DescribePath(p)
-		}
-	}
-	return false, false, ""
-}
